@@ -266,6 +266,15 @@ def run_bare_case(case):
     if case.get('stacked'):
         # the wrapped submodel carries the library's own mixins (tracing off, aliases unused): the law is the same
         w = _stacked_instance(i, w)
+    if case.get('check_edit'):
+        # the model's own check list was edited after construction (on both sides alike): the linker judges the submodel by that list
+        for o in (m, w):
+            if case['check_edit'] == 'drop-last' and len(o.check) > 1:
+                del o.check[-1]
+            elif case['check_edit'] == 'add-exogenous' and type(o).EXOGENOUS:
+                o.check.append(type(o).EXOGENOUS[0])
+            elif case['check_edit'] == 'only-first':
+                o.check[:] = o.check[:1]
     lk = BaseLinker({'m': w})
     t = case['t']
     if case.get('pre') == 'one-pass':
@@ -306,6 +315,13 @@ def run_bare(block, tier, acc):
                             acc.transitions += 2
                             acc.traces += 1
                             acc.nontrivial += 1
+                            if offset == 0 and not pre and len(c02.cat_model(i).ENDOGENOUS) > 1:
+                                for edit in ('drop-last', 'only-first', 'add-exogenous'):
+                                    case_e = dict(case, check_edit=edit)
+                                    acc.evaluations += 1
+                                    acc.nontrivial += 1
+                                    for key, exp, obs, what in run_bare_case(case_e):
+                                        acc.violation(key + ':edited-check-list', case_e, exp, obs, what)
                             if offset == 0 or pre:
                                 case_s = dict(case, stacked=True)
                                 acc.evaluations += 1
@@ -387,22 +403,23 @@ class OffSub(BaseModel):
 
 
 class OffLk(BaseLinker):
-    ENDOGENOUS = ['L']
+    ENDOGENOUS = ['L', 'M']     # M is endogenous but not a check variable: it is seeded by an offset all the same
     EXOGENOUS = ['Z']
     PARAMETERS = []
     ERRORS = []
-    NAMES = ['L', 'Z']
+    NAMES = ['L', 'M', 'Z']
     CHECK = ['L']
 
     def evaluate_t_before(self, t, **kw):
         self.__dict__.setdefault('seen', []).append((float(self._L[t]), float(self._Z[t])))
+        self.__dict__.setdefault('seen_m', []).append(float(self._M[t]))
 
 
 @robust()
 def run_offset_case(case):
     t, offset, n = case['t'], case['offset'], 5
     subs = {k: OffSub(range(n), A=[10.0 * (j + 1) + i for i in range(n)], X=[100.0 * (j + 1) + i for i in range(n)]) for j, k in enumerate('ab')}
-    lk = OffLk(subs, L=[1000.0 + i for i in range(n)], Z=[2000.0 + i for i in range(n)])
+    lk = OffLk(subs, L=[1000.0 + i for i in range(n)], Z=[2000.0 + i for i in range(n)], M=[3000.0 + i for i in range(n)])
     init = observe(lk)
     sel = case['sel']
     res, cause, _ = refsolve.call_outcome(lk.solve_t, t, submodels=sel, offset=offset, max_iter=2, tol=0.5)
@@ -414,8 +431,8 @@ def run_offset_case(case):
             out.append(('offset:out-of-span', 'IndexError, unchanged', [res, diff_obs(init, observe(lk))[:2]], 'offset outside the span must be rejected as for a single model'))
         return out
     seld = list(subs) if sel is None else sel
-    exp = {'result': 'True', 'linker': (1000.0 + src, 2000.0 + pos)}
-    obs = {'result': res, 'linker': lk.__dict__.get('seen', [None])[0]}
+    exp = {'result': 'True', 'linker': (1000.0 + src, 2000.0 + pos), 'linker-unchecked-endogenous': 3000.0 + src}
+    obs = {'result': res, 'linker': lk.__dict__.get('seen', [None])[0], 'linker-unchecked-endogenous': lk.__dict__.get('seen_m', [None])[0]}
     for j, k in enumerate('ab'):
         if k in seld:
             exp[k] = (10.0 * (j + 1) + src, 100.0 * (j + 1) + pos)
@@ -457,7 +474,7 @@ def run_solve_case(case):
 
     a, sa = mk()
     b, sb = mk()
-    kw = dict(max_iter=2, tol=0.5, failures=case['failures'])
+    kw = dict(max_iter=2, tol=0.5, failures=case['failures'], min_iter=case.get('min_iter', 0))
     # a selection is a sequence of ids, whatever its type (list, tuple, keys of a dict): the loop below always passes a list
     sel = case.get('sel')
     kw_a = dict(kw)
@@ -494,6 +511,12 @@ def run_solve(acc, tier):
                 acc.transitions += 1
                 for key, exp, obs, what in run_solve_case(case):
                     acc.violation(key, case, exp, obs, what)
+                for min_iter in (1, 2):   # 2 == max_iter: exactly two passes
+                    case3 = dict(case, min_iter=min_iter)
+                    acc.evaluations += 1
+                    acc.nontrivial += 1
+                    for key, exp, obs, what in run_solve_case(case3):
+                        acc.violation(key + ':min_iter=%d' % min_iter, case3, exp, obs, what)
                 if start in (None, 1) and end in (None, 2):
                     for sel in ([], [IDS[1]], [IDS[1], IDS[0]], [IDS[0], IDS[1]]):
                         for sel_type in ('list', 'tuple', 'dict-keys'):
